@@ -23,7 +23,7 @@ class Contract:
                  env=None, note='', name=None, self_obj=None, cases=None,
                  budget=None, skip_self=False, native=None,
                  native_scope=None, always_raises=False, track_pulls=None,
-                 track_slices=False, gen_form=None):
+                 track_slices=False, gen_form=None, invoke_result=False):
         self.target = target
         self.params = params or {}
         self.requires = list(requires)
@@ -54,6 +54,10 @@ class Contract:
         # as a generator function (ensures over out / pulls instead of over
         # the returned lazy object): dict(ensures=, track_pulls=, loops=)
         self.gen_form = gen_form
+        # the function returns a callable (a delegate / thunk): call it with
+        # no arguments right after the body and state the ensures over the
+        # whole call log and the delegate's result
+        self.invoke_result = invoke_result
 
     def param_order(self, fn):
         a = fn.node.args
@@ -358,9 +362,14 @@ def _run_path(world, c, params, tag, it, path, rep, first):
     it.fn_stack.append(fnode)
     outcome, value = 'return', None
     try:
-        it.exec_block(fnode.body, fr)
-    except ReturnSig as r:
-        value = r.value
+        try:
+            it.exec_block(fnode.body, fr)
+        except ReturnSig as r:
+            value = r.value
+            if c.invoke_result:
+                post_made = value
+                value = it.call(value, [], {}, fnode)
+                it.ghost_vars['DELEGATE'] = post_made
     except RaiseSig as r:
         outcome, value = 'raise', r.exc
     except CutPath:
